@@ -124,6 +124,7 @@ ssize_t __wrap_send(int fd, const void *buf, size_t len, int flags) { Ep *e = EP
 	return (ssize_t)n; }
 
 /* environment commands (what the scripted servers / clock do); shared by the main loop and by ask_script() */
+static void mhttp_plan(char **tok, int n);
 static int env_cmd(char **tok, int n) {
 	int i;
 	if (!strcmp(tok[0], "S2C")) {
@@ -141,6 +142,7 @@ static int env_cmd(char **tok, int n) {
 	} else if (!strcmp(tok[0], "GAI")) { eps[cur_ep].gai_fail = !strcmp(tok[1], "fail");
 	} else if (!strcmp(tok[0], "HTTP")) { size_t l; http_status = atol(tok[1]); free(http_body); http_body = hx_dec(n > 2 ? tok[2] : "-", &l); http_len = l; http_chunk = n > 3 ? (size_t)atol(tok[3]) : 0; http_err = 0;
 	} else if (!strcmp(tok[0], "HTTPERR")) { http_err = atoi(tok[1]);
+	} else if (!strcmp(tok[0], "MHTTP") || !strcmp(tok[0], "MHTTPERR")) { mhttp_plan(tok, n);
 	} else if (!strcmp(tok[0], "EP")) { cur_ep = atoi(tok[1]) % NEP;
 	} else return 0;
 	return 1;
@@ -168,9 +170,11 @@ static void ask_script(const char *what, int ep) {
  *       HTTP <status> <bodyHex|-> [<chunk size>]      deliver the body through the write callback (in chunks), set the response code
  *       HTTPERR <curl code>                           curl_easy_perform fails with that code                                   */
 #include <curl/curl.h>
+#define MAXX 512
 #undef curl_easy_setopt
 #undef curl_easy_getinfo
-typedef struct { char *url; const char *post; long postlen; int ispost; struct curl_slist *hdr; const char *agent; long cto, rto; curl_write_callback wr; void *wrdata; char *errbuf; long code; } FakeCurl;
+typedef struct { char *url; const char *post; long postlen; int ispost; struct curl_slist *hdr; const char *agent; long cto, rto; curl_write_callback wr; void *wrdata; char *errbuf; long code;
+	void *priv; int xno; int mstate; /* multi: 0 = not added, 1 = in flight, 2 = completed (to be reported), 3 = reported */ int mresult; } FakeCurl;
 CURLcode curl_global_init(long flags) { (void)flags; return CURLE_OK; }
 void curl_global_cleanup(void) {}
 CURL *curl_easy_init(void) { return H_CALLOC(1, sizeof(FakeCurl)); }
@@ -190,10 +194,64 @@ CURLcode curl_easy_setopt(CURL *c, CURLoption o, ...) { FakeCurl *f = c; va_list
 		case CURLOPT_WRITEFUNCTION: f->wr = va_arg(ap, curl_write_callback); break;
 		case CURLOPT_WRITEDATA: f->wrdata = va_arg(ap, void *); break;
 		case CURLOPT_ERRORBUFFER: f->errbuf = va_arg(ap, char *); break;
+		case CURLOPT_PRIVATE: f->priv = va_arg(ap, void *); break;
 		default: break;
 	}
 	va_end(ap); return CURLE_OK; }
-CURLcode curl_easy_getinfo(CURL *c, CURLINFO i, ...) { FakeCurl *f = c; va_list ap; va_start(ap, i); if (i == CURLINFO_RESPONSE_CODE) { long *out = va_arg(ap, long *); *out = f->code; } va_end(ap); return CURLE_OK; }
+CURLcode curl_easy_getinfo(CURL *c, CURLINFO i, ...) { FakeCurl *f = c; va_list ap; va_start(ap, i); if (i == CURLINFO_RESPONSE_CODE) { long *out = va_arg(ap, long *); *out = f->code; }
+	else if (i == CURLINFO_PRIVATE) { char **out = va_arg(ap, char **); *out = f->priv; } va_end(ap); return CURLE_OK; }
+void curl_easy_reset(CURL *c) { FakeCurl *f = c; if (f) { free(f->url); memset(f, 0, sizeof(*f)); } }
+
+/* ---- the multi interface used by net_http_curl_async.c: one HTTP exchange per request.
+ *   E madd x=<n> url=<hex> post=<hex>          the client handed exchange number n (numbered per service from 1) to curl_multi_add_handle
+ *   E mdone x=<n> result=<curl code> status=<http status> len=<body octets>     reported by curl_multi_perform in the order the script completed them
+ * script (environment commands, effective at the next curl_multi_perform):
+ *   MHTTP <x> <status> <bodyHex|-> [<chunk>]   exchange x completes with this status and body      MHTTPERR <x> <curl code>   exchange x fails          */
+typedef struct { FakeCurl *h[MAXX]; int n; FakeCurl *doneq[MAXX]; int nd, rd; } FakeMulti;
+static FakeMulti *the_multi; static int xcounter;
+static struct { int set, err; long status; unsigned char *body; size_t len, chunk; } xplan[MAXX];
+static int xorder[MAXX], nxorder;          /* completion order as scripted */
+static void mhttp_plan(char **tok, int n) { int x = atoi(tok[1]); size_t l = 0;
+	if (x <= 0 || x >= MAXX || nxorder >= MAXX) return;
+	free(xplan[x].body); memset(&xplan[x], 0, sizeof(xplan[x])); xplan[x].set = 1;
+	if (!strcmp(tok[0], "MHTTPERR")) xplan[x].err = atoi(tok[2]);
+	else { xplan[x].status = atol(tok[2]); if (n > 3 && strcmp(tok[3], "-")) { xplan[x].body = hx_dec(tok[3], &l); xplan[x].len = l; } xplan[x].chunk = n > 4 ? (size_t)atol(tok[4]) : 0; }
+	xorder[nxorder++] = x; }
+CURLM *curl_multi_init(void) { FakeMulti *m = H_CALLOC(1, sizeof(FakeMulti)); the_multi = m; xcounter = 0; memset(xplan, 0, sizeof(xplan)); return m; }
+CURLMcode curl_multi_cleanup(CURLM *mm) { if (mm == the_multi) the_multi = NULL; free(mm); return CURLM_OK; }
+CURLMcode curl_multi_setopt(CURLM *mm, CURLMoption o, ...) { (void)mm; (void)o; return CURLM_OK; }
+const char *curl_multi_strerror(CURLMcode c) { (void)c; return "scripted curl multi error"; }
+CURLMcode curl_multi_add_handle(CURLM *mm, CURL *c) { FakeMulti *m = mm; FakeCurl *f = c;
+	if (m->n >= MAXX - 1 || xcounter >= MAXX - 1) return CURLM_OUT_OF_MEMORY;
+	f->xno = ++xcounter; f->mstate = 1; m->h[m->n++] = f;
+	printf("E madd x=%d url=", f->xno); hx_print((const unsigned char *)f->url, f->url ? strlen(f->url) : 0); printf(" post=");
+	if (f->ispost && f->post) hx_print((const unsigned char *)f->post, (size_t)f->postlen); else printf("-");
+	printf("\n"); return CURLM_OK; }
+CURLMcode curl_multi_remove_handle(CURLM *mm, CURL *c) { FakeMulti *m = mm; int i, j;
+	for (i = 0; i < m->n; i++) if (m->h[i] == c) { for (j = i; j + 1 < m->n; j++) m->h[j] = m->h[j + 1]; m->n--; break; }
+	for (i = m->rd; i < m->nd; i++) if (m->doneq[i] == c) m->doneq[i] = NULL;
+	return CURLM_OK; }
+CURLMcode curl_multi_perform(CURLM *mm, int *running) { FakeMulti *m = mm; int i, k, run = 0;
+	for (k = 0; k < nxorder; k++) { int x = xorder[k]; FakeCurl *f = NULL;
+		for (i = 0; i < m->n; i++) if (m->h[i]->xno == x && m->h[i]->mstate == 1) f = m->h[i];
+		if (f == NULL || !xplan[x].set) continue;
+		if (xplan[x].err) { f->mresult = xplan[x].err; f->code = 0; if (f->errbuf) snprintf(f->errbuf, CURL_ERROR_SIZE, "scripted curl error %d", xplan[x].err); }
+		else { size_t off; f->mresult = CURLE_OK; f->code = xplan[x].status;
+			for (off = 0; off < xplan[x].len; ) { size_t nb = xplan[x].chunk && xplan[x].chunk < xplan[x].len - off ? xplan[x].chunk : xplan[x].len - off;
+				if (f->wr && f->wr((char *)xplan[x].body + off, 1, nb, f->wrdata) != nb) { f->mresult = CURLE_WRITE_ERROR; break; } off += nb; } }
+		printf("E mdone x=%d result=%d status=%ld len=%zu\n", x, f->mresult, f->code, xplan[x].len);
+		f->mstate = 2; if (m->nd < MAXX) m->doneq[m->nd++] = f;
+		free(xplan[x].body); xplan[x].body = NULL; xplan[x].set = 0; }
+	nxorder = 0;
+	for (i = 0; i < m->n; i++) if (m->h[i]->mstate == 1) run++;
+	if (running) *running = run;
+	return CURLM_OK; }
+CURLMsg *curl_multi_info_read(CURLM *mm, int *left) { FakeMulti *m = mm; static CURLMsg msg;
+	while (m->rd < m->nd && m->doneq[m->rd] == NULL) m->rd++;
+	if (m->rd >= m->nd) { if (left) *left = 0; return NULL; }
+	msg.msg = CURLMSG_DONE; msg.easy_handle = m->doneq[m->rd]; msg.data.result = (CURLcode)m->doneq[m->rd]->mresult; m->doneq[m->rd]->mstate = 3; m->rd++;
+	if (left) *left = m->nd - m->rd;
+	return &msg; }
 CURLcode curl_easy_perform(CURL *c) { FakeCurl *f = c; struct curl_slist *h; size_t off;
 	printf("E http url="); hx_print((const unsigned char *)f->url, f->url ? strlen(f->url) : 0); printf(" post=");
 	if (f->ispost && f->post) hx_print((const unsigned char *)f->post, (size_t)f->postlen); else printf("-");
@@ -432,7 +490,8 @@ int main(void) {
 			KSI_CTX_new(&ctx);
 			extending = (n > 6 && !strcmp(tok[6], "x"));
 			rc = extending ? KSI_ExtendingAsyncService_new(ctx, &as) : KSI_SigningAsyncService_new(ctx, &as);
-			if (rc == KSI_OK) rc = KSI_AsyncService_setEndpoint(as, "ksi+tcp://h.example:1", cred_user, cred_key);
+			/* NEW ... [x|-] [http]: the asynchronous HTTP client (scripted curl multi) instead of the TCP client */
+			if (rc == KSI_OK) rc = KSI_AsyncService_setEndpoint(as, (n > 7 && !strcmp(tok[7], "http")) ? "ksi+http://h.example:8080/svc" : "ksi+tcp://h.example:1", cred_user, cred_key);
 			if (rc == KSI_OK) rc = KSI_AsyncService_setOption(as, KSI_ASYNC_OPT_REQUEST_CACHE_SIZE, (void *)(size_t)atol(tok[1]));
 			KSI_AsyncService_setOption(as, KSI_ASYNC_OPT_SND_TIMEOUT, (void *)(size_t)atol(tok[2]));
 			KSI_AsyncService_setOption(as, KSI_ASYNC_OPT_RCV_TIMEOUT, (void *)(size_t)atol(tok[3]));
